@@ -327,7 +327,10 @@ pub fn run_check(chk: &dyn Check, cfg: &RunCfg) -> i32 {
     };
 
     // ---- generated lanes
+    // MVH_SCALE (experiments only; not used by registered commands) multiplies lane case counts
+    let scale: f64 = std::env::var("MVH_SCALE").ok().and_then(|s| s.parse().ok()).unwrap_or(1.0);
     for (lane, cases, slen) in chk.lanes(cfg.tier) {
+        let cases = ((cases as f64) * scale) as usize;
         if cases == 0 {
             continue;
         }
